@@ -533,6 +533,25 @@ def c09_groups(tier, tag='C09'):
     return gs
 
 
+IO = 'tfhe_io.cpp'
+
+
+def c18_groups(tier, tag='C18'):
+    gs = [Group(tag + '.read_lweSample+lweKey', 'c18_readers.c', 'h_read_lwe', extract=[(IO, 'read_lweSample'), (IO, 'read_lweKey_content')], defines={'H_LWE': None}, timeout=1200)]
+    for (K, L) in ([(1, 2), (2, 2)] if tier == 'quick' else [(1, 1), (1, 2), (1, 3), (2, 2), (2, 3), (3, 2)]):
+        d = {'VERIF_K': K, 'VERIF_L': L}
+        inst = {'k': K, 'l': L}
+        gs.append(Group('%s.read_tLweSample+keys.k=%d.l=%d' % (tag, K, L), 'c18_readers.c', 'h_read_tlwe',
+                        extract=[(IO, 'read_tLweSample'), (IO, 'read_tLweKey_content'), (IO, 'read_tGswKey_content')], defines=dict(d, H_TLWE=None), unwind=K + 3, timeout=1200, instance=inst))
+        gs.append(Group('%s.read_tGswSample.k=%d.l=%d' % (tag, K, L), 'c18_readers.c', 'h_read_tgsw', extract=[(IO, 'read_tLweSample'), (IO, 'read_tGswSample')],
+                        defines=dict(d, H_TGSW=None), unwind=(K + 1) * L + 3, timeout=1200, instance=inst))
+        gs.append(Group('%s.read_LweBootstrappingKey_content.k=%d.l=%d' % (tag, K, L), 'c18_readers.c', 'h_read_bk', extract=[(IO, 'read_LweBootstrappingKey_content')],
+                        defines=dict(d, H_BK=None), unwind=(K + 1) * L + 3, timeout=1200, instance=dict(inst, n=2)))
+    gs.append(Group(tag + '.read_lweKeySwitchKey_content', 'c18_readers.c', 'h_read_ks', extract=[(IO, 'read_lweKeySwitchKey_content')], defines={'H_KS': None}, unwind=10,
+                    timeout=1200, instance={'n': 2, 't': 2, 'basebit': 1}))
+    return gs
+
+
 PROPS = {
     'C13': {
         'groups': c13_groups,
@@ -712,6 +731,21 @@ PROPS = {
             'k and l enumerated; message constants m in {0,1,2,3} for tGswAddMuIntH and {1,3,-1} for the truncation identity (symbolic 32x32 multipliers undecided)',
             'tGswAddMuH (polynomial message) and tGswExternProduct are not under contract',
             '"the FFT-domain key is a faithful image": only that every row is transformed once into its own slot',
+        ],
+        'trusted': [],
+    },
+    'C18': {
+        'groups': c18_groups,
+        'level': 'proof',
+        'explanation': 'Binary sections only: the eight binary readers against a stream stub with an arbitrary number of remaining bytes, arbitrary content and an '
+                       'arbitrary type tag, for both stream flavours: every destination is writable for the requested byte count; a wrong tag never returns '
+                       'normally with a clean stream; a normal return with a clean stream consumed exactly the section size (so no proper prefix is accepted). '
+                       'Coefficient dimensions n, N symbolic; k, l and the key-switch / bootstrapping table shapes small enumerated.',
+        'assumptions': STD_ASSUME + [
+            'the text-section parser (new_TextModeProperties_fromIstream, MapTextModeProperties, std::string / std::map / stold) is out of reach of the C front end: titles, '
+            'truncated headers and parameter sections are NOT covered -- the property is claimed for the binary sections only',
+            'stream stub = assumed contract of CIstream::fread (short read aborts) and StdIstream::fread (short read sets the fail bit), transcribed from tfhe_generic_streams.cpp:68-84; virtual dispatch is collapsed into one stub (R8)',
+            'composite importers (key sets), FFT sample readers and the writers are not under contract',
         ],
         'trusted': [],
     },
